@@ -91,7 +91,28 @@ func stressRR(cfg M, tr *Trace, seed int64) {
 				}
 			}(g)
 		}
+		stopInspect := make(chan struct{})
+		var iw sync.WaitGroup
 		if admin {
+			// inspection calls from their own goroutines, racing with requests and with the administration
+			for ins := 0; ins < 2; ins++ {
+				iw.Add(1)
+				go func(ins int) {
+					defer iw.Done()
+					for {
+						select {
+						case <-stopInspect:
+							return
+						default:
+						}
+						for _, u := range s.rr.Servers() {
+							_ = u.String()
+							s.rr.ServerWeight(u)
+						}
+						runtime.Gosched()
+					}
+				}(ins)
+			}
 			wg.Add(1)
 			go func() {
 				defer wg.Done()
@@ -114,6 +135,8 @@ func stressRR(cfg M, tr *Trace, seed int64) {
 		}
 		close(start)
 		wg.Wait()
+		close(stopInspect)
+		iw.Wait()
 		for _, e := range hl.stop() {
 			switch e.Ev {
 			case "rr.pick":
